@@ -11,7 +11,7 @@ UNITS = {
     'util': 'smart_quoter, push_checked, SplittedString accessors, split_spec lemmas, character classes',
     'phon': 'PhoneticSuggestion::{add_suffix_to_suggestions, suggest_only_phonetic, suggestion_with_dict, suggest, get_prev_selection}',
     'pmeth': 'PhoneticMethod under an adversarial environment (new, key, backspace, commit, update_engine)',
-    'data': 'Data::new: the bundled tables are a function of the data directory alone',
+    'data': 'Data::new: the bundled tables are a function of the data directory alone; Data::find_suffix / search_corrected are the look-ups in those tables',
     'split': 'SplittedString::split (the real three-way split: find + right-to-left char_indices scan + split_at) against split_spec',
     'layout_get': 'Layout::layout_get_value / layout_get_value_numpad: entry name, empty = none, key pad only with the option on',
 }
@@ -73,7 +73,7 @@ PLAN = {
     'C07': {
         'bounded': ['phonetic_api', 'history_independence', 'emoji_tables'], 'data': ['tables'],
         'level': 'proof',
-        'units': ['rank', 'util', 'phon', 'pmeth'],
+        'units': ['rank', 'util', 'phon', 'pmeth', 'data'],
         'technique': 'Verus: Rank::cmp == rank_cmp (class, number); assembly postcondition of suggest; push_checked duplicate-freedom at ranked-value level',
         'claim': 'Proof that the comparator is the documented order, that candidate ranks are First(auto-correct, user entry first), Other(10*distance), Last(transliteration,2), Last(English,3), that the list handed to the sort is exactly that assembly with text-duplicates suppressed by push_checked, and that the result is the (assumed stable) sort of it.  Statement clauses at spec level (lemma_c07_list over the sorted assembly): the auto-correct entry, when one exists, is first; direct and suffix-built dictionary words appear in non-decreasing rank number (10 x the distance recorded by the search, inherited by suffix-built forms); the transliteration, unless already present, follows every dictionary word; raw English is last; an emoji (numbers 1..9) never precedes a dictionary word of distance 0; no text occurs twice.',
         'note': COMMON_TRUST + 'Sortedness rests on one axiom about std sort (stable, sorted w.r.t. the proved comparator key) + data preconditions: emoji numbers 1..9, distances <= 25; that the number recorded by the dictionary search IS the edit distance is T2 (include_from_dictionary), checked by the bounded list oracle in phonetic_api / history_independence (distance and dictionary membership recomputed).',
@@ -81,7 +81,7 @@ PLAN = {
     'C08': {
         'bounded': ['suffix_forms'],
         'level': 'proof',
-        'units': ['phon', 'util'],
+        'units': ['phon', 'util', 'data'],
         'technique': 'Verus: full functional postcondition of add_suffix_to_suggestions (every split point x every memoised base x three joining rules) with loop invariants',
         'claim': 'Proof that the suffix-built candidates are exactly: for every split point, in order, with a known suffix and a memoised base, every memoised candidate of the base joined by the three rules of the statement (rank preserved) -- soundness and completeness in one postcondition; is_vowel/is_kar proved equal to their sets.',
         'note': COMMON_TRUST + 'include_from_dictionary (regex) is T2: assumed contract ph_dict; ASCII byte/char bridge axioms for &s[a..b].',
@@ -89,7 +89,7 @@ PLAN = {
     'C09': {
         'bounded': ['learn_recall', 'update_engine'],
         'level': 'proof',
-        'units': ['pmeth', 'phon', 'split'],
+        'units': ['pmeth', 'phon', 'split', 'data'],
         'technique': 'Verus: functional postconditions of candidate_committed (store update + save attempt) and get_prev_selection (looked-up text, first index, derived entry) over String-keyed map views',
         'claim': 'Commit side: committing the preselected candidate (or with suggestions off) leaves the store unchanged; otherwise exactly one entry is written (word part of the typed text -> word part, colon mode, of the committed candidate), all other entries untouched, and a save of the WHOLE new store to the selection file is attempted (marker predicate), independent of the save result.  Look-up side: get_prev_selection is proved to return the index of the first candidate whose text is wrapping punctuation + learned text of the word part, or -- when the word has no entry of its own -- + the learned text of a base joined (same three rules as C08) with the first known suffix, shortest first; a derived text is stored for the word part itself without the punctuation, nothing else changes, and that write is idempotent for later look-ups (lemma).  The preselected index returned by key and backspace events is proved to be this function of (text, configuration, data, user list, learned selections).  Restart, read side: PhoneticMethod::new is proved to hold, under every option setting, exactly the store the selection file of the configuration denotes (load marker; missing or damaged file = empty store).',
         'note': COMMON_TRUST + 'Not proved: the round-trip lemma (the word part, colon mode, of a candidate p+core+t re-wrapped equals the candidate) and uniqueness-based conclusion "points at that same candidate" -- covered by the bounded check learn_recall (same context, restart, suffixed forms, punctuated first typing); serde round trip and disk atomicity are not decided.',
